@@ -203,7 +203,7 @@ def check_C(S, p):
             if q not in pops:
                 pops.append(q)
         cols = [[samples.index(s) for s, q in smap if q == lab] for lab in pops]
-        hist = gen_history(rng, ns, cols, project, rng.choice([4, 10, 40]))
+        hist = gen_history(rng, ns, cols, project, rng.choice([4, 10, 40, 40, 1024, 2048]) if i else [1024, 2048, 512][p["i"] % 3])
         cut = rng.randint(0, len(hist))
         perm = hist[:]
         rng.shuffle(perm)
